@@ -1,4 +1,5 @@
 import QuantemModel.Lemmas.Config
+import QuantemModel.Lemmas.ConfigTwin
 /-!
 C19 — the configuration store (Model/Config.lean) behaves as a last-writer-wins nested
 map.  Only property theorems and non-vacuity examples live here.
@@ -295,6 +296,58 @@ theorem updateDefaults_appends (env : Env) (s s' : State) (new : Dict)
         subst h
         exact ⟨new', rfl⟩
 
+/-- **'-' and '_' spellings are one entry**: after a successful `set` of a path, reading it
+back under the *other* spelling of every component returns the value set — for keys that do
+not mix the two characters and dictionaries that hold no key in both spellings -/
+theorem get_assign_twin (keys : List Key) (v : Tree) :
+    ∀ (d d' : Dict) (rc : Bool) (r : List RecOp),
+      (∀ k ∈ keys, Uniform k) → TwinFreeAlong d keys →
+      assign keys v d rc = .ok (d', r) → Config.get d' (keys.map altKey) = .ok v := by
+  induction keys with
+  | nil => intro d d' rc r _ _ h; simp [assign] at h
+  | cons k rest ih =>
+    intro d d' rc r hu htf h
+    have huk : Uniform k := hu k (by simp)
+    have hur : ∀ k' ∈ rest, Uniform k' := fun k' hk' => hu k' (by simp [hk'])
+    cases rest with
+    | nil =>
+      simp [assign] at h
+      obtain ⟨hd, _⟩ := h
+      subst hd
+      simp only [List.map_cons, List.map_nil]
+      rw [Config.get, canonicalName_alt_dset k d v huk htf.1, dget_dset_same]
+      cases v <;> simp [Config.get]
+    | cons k2 rest2 =>
+      rw [assign] at h
+      rotate_left
+      · simp
+      simp only [List.map_cons]
+      split at h
+      · split at h
+        · rename_i sub r0 hsub
+          simp at h
+          obtain ⟨hd, _⟩ := h
+          subst hd
+          rw [Config.get, canonicalName_alt_dset k d _ huk htf.1, dget_dset_same]
+          have := ih [] sub false r0 hur (twinFreeAlong_nil _) hsub
+          simpa using this
+        · simp at h
+      · rename_i sub hg
+        split at h
+        · rename_i sub' r0 hsub
+          simp at h
+          obtain ⟨hd, _⟩ := h
+          subst hd
+          rw [Config.get, canonicalName_alt_dset k d _ huk htf.1, dget_dset_same]
+          have htf2 : TwinFreeAlong sub (k2 :: rest2) := by
+            have := htf.2
+            rw [hg] at this
+            exact this
+          have := ih sub sub' rc r0 hur htf2 hsub
+          simpa using this
+        · simp at h
+      · simp at h
+
 /-! ### non-vacuity: concrete states meeting the hypotheses -/
 
 private def kab : Key := ['a', '_', 'b']
@@ -318,6 +371,15 @@ example : Apart cfg0 [kviz, kpc] [kviz, kcmap] := by
   unfold Apart
   left
   decide
+example : Uniform kab' ∧ Uniform kviz ∧ altKey kab' = kab ∧ TwinFreeAlong cfg0 [kab'] := by
+  refine ⟨by unfold Uniform; decide, by unfold Uniform; decide, by decide, ?_, trivial⟩
+  intro k hk hne
+  simp only [dhas, cfg0, dget] at hk ⊢
+  by_cases h1 : kab = k
+  · subst h1; decide
+  · by_cases h2 : kviz = k
+    · subst h2; exact absurd (by decide) hne
+    · simp [h1, h2] at hk
 example : (setItems { cuda := false, mps := false, numDevices := 0 } cfg0 []
     [(kviz ++ ['.'] ++ kcmap, .leaf (.str "hot")), (kpc, .leaf (.int 3))]).2.2 = .none := by rfl
 
